@@ -13,7 +13,12 @@
 #include <limits>
 #include <string>
 #include <vector>
+#include <csignal>
+#include <unistd.h>
 using namespace Gudhi::cubical_complex;
+// a crash of the code under test (heap corruption, segmentation fault) is reported with the case that caused it
+static char g_cur[256];
+static void on_crash(int sig) { char b[600]; int n = snprintf(b, 600, "{\"class\":\"cubical values and order\",\"checked\":1,\"mismatches\":1,\"first\":[{\"case\":\"%s: crash (signal %d)\"}]}\n", g_cur, sig); if (write(1, b, n)) {} _exit(0); }
 static const double INF = std::numeric_limits<double>::infinity();
 static std::vector<unsigned> S; static std::vector<bool> P; static unsigned Dm;
 static unsigned L(unsigned i) { return 2 * S[i] + (P[i] ? 0 : 1); }
@@ -52,6 +57,7 @@ static void run_shape(std::vector<unsigned> shape, std::vector<bool> mask, bool 
   for (int top = 1; top >= 0; top--) { size_t nin = 1; for (unsigned i = 0; i < Dm; i++) nin *= top ? S[i] : (S[i] + (P[i] ? 0 : 1));
     std::vector<unsigned> dims = S; if (!top) for (unsigned i = 0; i < Dm; i++) dims[i] = S[i] + (P[i] ? 0 : 1);
     std::string tag = std::string(periodic ? "periodic" : "base") + " shape"; for (auto s : shape) tag += " " + std::to_string(s); if (periodic) { tag += " mask "; for (bool b : mask) tag += b ? "p" : "f"; } tag += top ? " top-cells" : " vertices";
+    snprintf(g_cur, 256, "%s", tag.c_str());
     bool exhaustive = nin <= 6; long cases = exhaustive ? 1 : samples; if (exhaustive) for (size_t k = 0; k < nin; k++) cases *= 5;
     for (long cs = 0; cs < cases; cs++) { std::vector<double> in(nin); long q = cs;
       for (size_t k = 0; k < nin; k++) { in[k] = exhaustive ? alpha[q % 5] : ((nextr() % 4 == 0) ? alpha[nextr() % 5] : (double)(nextr() % 7)); q /= 5; }
@@ -61,6 +67,7 @@ static void run_shape(std::vector<unsigned> shape, std::vector<bool> mask, bool 
         else { Bitmap_cubical_complex<Bitmap_cubical_complex_base<double>> cc(dims, in, (bool)top); check(cc, in, top, tag); }
       } catch (std::exception const& e) { ++total_cases; fail(tag + ": exception " + e.what()); } } } }
 int main(int argc, char** argv) {
+  signal(SIGSEGV, on_crash); signal(SIGABRT, on_crash); signal(SIGBUS, on_crash); signal(SIGFPE, on_crash);
   unsigned long long rng = 0x9E3779B97F4A7C15ull * (unsigned long long)((argc > 1 ? atol(argv[1]) : 0) + 1); int tier = argc > 2 ? atoi(argv[2]) : 0; int samples = tier ? 400 : 60;
   std::vector<std::vector<unsigned>> shapes = {{1}, {2}, {5}, {1, 1}, {2, 1}, {1, 3}, {3, 2}, {2, 2, 2}, {3, 2, 1}, {1, 2, 3}, {2, 1, 1, 2}};
   for (auto& s : shapes) run_shape(s, {}, false, rng, samples);
